@@ -38,6 +38,9 @@ def run(prog: Program, rep: Report, tier: str):
     # diagonal blocks need a positive weight-norm row scale for all raw parameter values
     from .c09 import rule_positive_diagonal
     rule_positive_diagonal(prog, rep, R="C01.monotone")
+    # "... or the configured search tolerance": the inverter a caller configures is the one the network inverts with
+    from .c03 import rule_factory_inverter
+    rule_factory_inverter(prog, rep)
     # solve_triangular inverts A x + b only while A IS triangular: the triangle has to be selected at every unwrap
     # (inside the wrapper's function), not once at construction, or training fills the other triangle
     from .c07 import rule_tri
